@@ -262,10 +262,11 @@ def fail_key(d, case):
 class C07(Prop):
   id = 'C07'
   lean_module = 'DK.Props.C07'
-  theorems = ['DK.C07.device_convex', 'DK.C07.cdevice_convex', 'DK.C07.idevice2_convex', 'DK.C07.idevice_convex',
+  theorems = {'DK.Props.C07': ['DK.C07.device_convex', 'DK.C07.cdevice_convex', 'DK.C07.idevice2_convex', 'DK.C07.idevice_convex',
               'DK.C07.idevice_not_convex_small_b', 'DK.C07.gdevice_convex', 'DK.C07.cdevice2_convex', 'DK.C07.tdevice_convex',
               'DK.C07.sdevice_quadratic_convex', 'DK.C07.sdevice_quadratic_not_convex', 'DK.C07.sdevice_convex',
-              'DK.C07.first_order_certificate', 'DK.C07.convexOnBox_iff']
+              'DK.C07.first_order_certificate', 'DK.C07.convexOnBox_iff'],
+              'DK.Props.C07tree': ['DK.C07tree.tree_cost_convex', 'DK.C07tree.tree_cost_convex_feasible', 'DK.C07tree.leaf_cost_convex', 'DK.C07tree.leaf_cost_convex_univ', 'DK.C07tree.ofLeaf_convex', 'DK.C07tree.ofMF_convex', 'DK.C07tree.ofMF_convex_global', 'DK.C07tree.ofMF_convex_feasible', 'DK.C07tree.ofMF_not_convex_on_box', 'DK.C07tree.tree_cons_affine', 'DK.C07tree.tree_cons_convexSat', 'DK.C07tree.feasible_convex', 'DK.C07tree.feasible_convex_affine', 'DK.C07tree.feasible_convex_of_blocks', 'DK.C07tree.sdeviceCons_affine', 'DK.C07tree.sdevice_convex_part', 'DK.C07tree.socHi_not_convexSat', 'DK.C07tree.clipHi_not_convexSat', 'DK.C07tree.sdevice_feasible_not_convex', 'DK.C07tree.sublevel_convex', 'DK.C07tree.local_is_global', 'DK.C07tree.local_is_global_of_local', 'DK.C07tree.tree_sublevel_convex', 'DK.C07tree.tree_local_is_global']}
   rule = ('pairs of in-bounds flows x 4 mixing weights (1/2, 1/4, 3/4, random dyadic) for every convex-documented class at parameters on '
           'and next to the validator thresholds (b = 1, 1+1/64, non-integer b; p_l = p_h; c2 = c1, c1-1/64; efficiency 1, 63/64, 1/64; '
           'active shortfall term; t_range = 0; zero-width slots; convex generator / ADevice polynomials; thermal in any direction), plus '
@@ -297,6 +298,35 @@ class C07(Prop):
       x, y, th = gen_pair(rng, d)
       out.append({'dev': d, 'x': x, 'y': y, 'p': gen.gen_price(rng, d['n']), 'thetas': th, 'branch': branch, 'bnd': bnd})
     return out
+
+  def corpus(self):
+    # the Lean witness DK.C07tree.sdevice_feasible_not_convex replayed on the implementation
+    d = {'cls': 'SDevice', 'n': 2, 'lb': ['-1', '-1'], 'hb': ['8', '8'], 'cbs': [], '_py': {'bform': 'table', 'cform': None},
+         'prm': {'c1': '1', 'c2': '0', 'c3': '0', 'capacity': '4', 'damage_depth': '0', 'start': '1/2', 'reserve': '0', 'efficiency': '1/2', 'sustainment': '1'}}
+    return [{'dev': d, 'x': ['4', '0'], 'y': ['-1', '8'], 'p': '0', 'thetas': ['1/2'], 'branch': 'feasible-set', 'bnd': True}]
+
+  def feasible_set_oracle(self, case, dev):
+    """C07's consequence: the feasible set (bounds + constraints) is convex.  Two feasible flows whose
+    mixture is infeasible are a counterexample."""
+    n_ = np()
+    def slack(v):
+      a = n_.array(v, dtype=float)
+      s = min(float((a - dev.lbounds).min()), float((dev.hbounds - a).min()))
+      for c in dev.constraints:
+        f = float(c['fun'](a))
+        s = min(s, f if c['type'] == 'ineq' else -abs(f))
+      return s
+    x = build.arr(case['x']); y = build.arr(case['y'])
+    if slack(x) < -1e-9 or slack(y) < -1e-9:
+      return []
+    for th in case['thetas']:
+      z = build.arr(L(self.mix(case, th)))
+      if slack(z) < -1e-6:
+        d = case['dev']
+        return [{'key': {'cls': d['cls'], 'kind': 'feasible-set-nonconvex', 'lossy': d['prm'].get('efficiency', '1') != '1'},
+                 'detail': '%s: flows x=%s and y=%s satisfy the bounds and every constraint, their mixture (theta=%s) %s violates one by %.4g; prm=%s' % (
+                   d['cls'], case['x'], case['y'], th, z.tolist(), -slack(z), json.dumps(strip_private(d['prm']))[:300])}]
+    return []
 
   def build(self, case):
     """the device, or None when the constructor rejects the parameters (vacuous)."""
@@ -339,6 +369,13 @@ class C07(Prop):
       return []
     if branch.startswith('probe:'):
       self.bump('ACCEPTED outside-validator parameters ' + branch)
+    if d['cls'] == 'SDevice' and branch in ('std', 'feasible-set'):
+      fs = self.feasible_set_oracle(case, dev)
+      if fs:
+        self.bump('feasible-set nonconvex found')
+        return fs
+      if branch == 'feasible-set':
+        return []
     p = build.price(case['p'])
     x = build.arr(case['x']); y = build.arr(case['y'])
     cx, cy = float(dev.cost(x, p)), float(dev.cost(y, p))
